@@ -210,6 +210,43 @@ func c07(c *report.Check) {
 					cases = append(cases, c07Case{Ring: s.Ring, Op: s.Op, Faults: []c07Fault{a, b}})
 				}
 			}
+			// triples over the membership RPCs the operation uses (a retry of a retry)
+			var used []c07Fault
+			for _, f := range memb {
+				for _, cl := range base.calls {
+					if cl.Method == f.Method {
+						used = append(used, f)
+						break
+					}
+				}
+			}
+			for i, a := range used {
+				for k, b := range used[i+1:] {
+					for _, d := range used[i+1+k+1:] {
+						cases = append(cases, c07Case{Ring: s.Ring, Op: s.Op, Faults: []c07Fault{a, b, d}})
+					}
+				}
+			}
+			// and all pairs over every (method, occurrence) of the fault-free run - lookups,
+			// notifications, stabilize traffic and KV transfer calls included - in both modes
+			inMemb := map[c07Fault]bool{}
+			for _, f := range memb {
+				inMemb[f] = true
+			}
+			var all []c07Fault
+			for _, f := range singles {
+				if f.Kind == "deadline" {
+					all = append(all, f)
+				}
+			}
+			for i, a := range all {
+				for _, b := range all[i+1:] {
+					if inMemb[a] && inMemb[b] {
+						continue // already listed above
+					}
+					cases = append(cases, c07Case{Ring: s.Ring, Op: s.Op, Faults: []c07Fault{a, b}})
+				}
+			}
 		}
 	}
 	var mu sync.Mutex
@@ -269,11 +306,11 @@ func c07(c *report.Check) {
 	c.Set("scenarios", len(scns))
 	fb := 1
 	if c.Thorough() {
-		fb = 2
+		fb = 3
 	}
 	c.Set("fault_bound", fb)
 	c.Set("multi_fault_failures_subsumed_by_a_failing_single_fault", subsumed)
-	c.Set("rule", fmt.Sprintf("for %d membership operations (join into / leave from populated stable rings of real nodes behind the RPC view model) a fault-free run numbers every inter-node call; then every (method, occurrence) x {fail before delivery, deliver then lose the response} x {deadline error, opaque error} is injected singly, and each membership RPC (RequestToJoin, FinishJoin, RequestToLeave, FinishLeave, Import) additionally fails on EVERY attempt (persistent fault, both modes and kinds)%s; after the operation returns (retries included) faults stop, the ring quiesces, and every remaining node must be Active and every acknowledged key must read back through every remaining node; class = (operation, faulted methods, modes, verdict)", len(scns), map[bool]string{true: ", and all pairs over the membership RPCs (occurrences 1..3, both modes)", false: ""}[c.Thorough()]))
+	c.Set("rule", fmt.Sprintf("for %d membership operations (join into / leave from populated stable rings of real nodes behind the RPC view model) a fault-free run numbers every inter-node call; then every (method, occurrence) x {fail before delivery, deliver then lose the response} x {deadline error, opaque error} is injected singly, and each membership RPC (RequestToJoin, FinishJoin, RequestToLeave, FinishLeave, Import) additionally fails on EVERY attempt (persistent fault, both modes and kinds)%s; after the operation returns (retries included) faults stop, the ring quiesces, and every remaining node must be Active and every acknowledged key must read back through every remaining node; class = (operation, faulted methods, modes, verdict)", len(scns), map[bool]string{true: ", all pairs over the membership RPCs (occurrences 1..3, both modes), all triples over the membership RPCs the operation uses, and all pairs over every (method, occurrence) of the fault-free run", false: ""}[c.Thorough()]))
 	c.Set("samples", dist.Samples)
 	c.Set("exhaustive", true)
 	c.Assume("faults are injected only while the operation (with its retries) runs; maintenance afterwards is fault-free", "retry waits are instantaneous; no maintenance runs between retries")
